@@ -320,6 +320,7 @@ func runC06(c *Ctx) {
 	c06Flags(c, p, P, astPath)
 	c06SerExclusive(c, p)
 	c06QuoteRule(c, p)
+	r.Floor("nested-format-options", c06NestedFormatOptions(c, p), 5, "nested Format calls")
 	r.Rule("guard-field-match", "in the serialisers of pkg/sql/ast, code that runs only when an optional field of a node is present uses that field (or hands the node on); a branch that tests one field and uses only another, untested, one is reported")
 	ng := guardFieldMatch(c, p, "guard-field-match", []string{"pkg/sql/ast"}, func(f *ssa.Function) bool {
 		return !strings.HasPrefix(f.Name(), "Put") && !strings.HasPrefix(f.Name(), "Release") && !strings.HasPrefix(f.Name(), "Get")
